@@ -22,6 +22,7 @@
   every collision pattern and every history.
 -/
 import QlibcModel.HashArr.Walk
+import QlibcModel.HashArr.Widths
 import QlibcModel.Shapes.Harr
 
 namespace Qlibc.Props.C06
@@ -138,6 +139,19 @@ theorem clear_refines (hashC : CanonKey → Nat) (cap : Nat) (img : Img) (m : AM
 theorem counters_exact (hashC : CanonKey → Nat) (cap : Nat) (img : Img) (m : AMap) (h : Ref hashC cap img m) :
     size img = ((m.length : Int), (cap : Int), (m.used : Int)) := by
   unfold size; rw [h.num, h.cap, h.used]
+
+/-- **the counters are exact in the C structs, not only in the unbounded model**: for every image that
+    represents a map in a table of fewer than 2^31 slots, every field the code stores (`count`, `hash`,
+    `datasize`, `link`, `maxslots`, `usedslots`, `num`) is representable in the field of the CURRENT
+    header (`cWidths`, regenerated) iff no home slot carries more than 32767 keys; in particular always
+    for at most 32767 slots.  The key length bound `< 65536` of the theorems above is the width of
+    `pair.namesize`, which the model stores itself. -/
+theorem widths_suffice (hashC : CanonKey → Nat) (cap : Nat) (img : Img) (m : AMap) (h : Ref hashC cap img m)
+    (hcap : cap < 2147483648) :
+    (Fits cWidths img ↔ ∀ s, s < img.n → (img.sl s).count ≥ 1 → img.ncoll s < 32767) ∧
+    (cap ≤ 32767 → Fits cWidths img) := by
+  have hc := h.cap
+  exact ⟨widths_suffice' h.wf (by omega), fun hs => widths_suffice_small' h.wf (by omega)⟩
 
 /-- **the traversal is complete**: `getnext` from index 0 yields every key of the abstraction exactly
     once (stored prefix, whole value), in slot order, and never faults -/
